@@ -2,6 +2,7 @@ package schemagen
 
 import (
 	"fmt"
+	"strings"
 
 	"pgregory.net/rapid"
 )
@@ -17,6 +18,7 @@ type GenOpts struct {
 	EmptyElems         bool // allow arrays whose elements may be empty (finding F5 class)
 	NestedMasks        bool // mask fields that are themselves masked
 	Arithmetic         bool // constants spelled as sums
+	MaskForward        bool // a function whose # argument reaches several instantiations of one template through its result
 }
 
 func DefaultOpts() GenOpts {
@@ -44,13 +46,15 @@ var fieldNames = []string{"a", "b", "c", "x", "y", "z", "id", "key", "value", "c
 
 func (g *gen) pick(label string, xs ...string) string { return rapid.SampledFrom(xs).Draw(g.rt, label) }
 func (g *gen) n(label string, lo, hi int) int         { return rapid.IntRange(lo, hi).Draw(g.rt, label) }
-func (g *gen) p(label string, percent int) bool       { return rapid.IntRange(0, 99).Draw(g.rt, label) < percent }
+func (g *gen) p(label string, percent int) bool {
+	return rapid.IntRange(0, 99).Draw(g.rt, label) < percent
+}
 
 func (g *gen) freshName(base string) (ctor, typ string) {
 	ns := g.pick("ns", g.o.Namespaces...)
 	// now and then a namespaced constructor whose short name is that of a builtin (a.string = a.String)
 	if ns != "" && g.p("builtinlike", 6) {
-		c := g.pick("builtinname", "int", "long", "string", "float", "double")
+		c := g.pick("builtinname", "int", "long", "string", "float", "double", "true")
 		if full := ns + "." + c; !g.names[full] {
 			g.names[full] = true
 			return full, ns + "." + string(c[0]-'a'+'A') + c[1:]
@@ -224,6 +228,13 @@ func (g *gen) genFields(sc *scope, lo, hi int) ([]Field, bool) {
 			f := Field{Name: g.fieldName(sc), Mask: &MaskRef{Src: m.name, Bit: g.freeBit(m.bits)}}
 			if g.p("truefield", 30) {
 				f.Type = TypeExpr{Kind: "ref", Name: "true"}
+				// a namespaced struct that is merely called true is an ordinary type, not a bit
+				for _, u := range g.types {
+					if len(u.Params) == 0 && len(u.Ctors) == 1 && strings.HasSuffix(u.Ctors[0], ".true") && g.p("nstrue", 50) {
+						f.Type = TypeExpr{Kind: "ref", Name: u.Ctors[0]}
+						break
+					}
+				}
 			} else {
 				f.Type = g.genType(sc, 0, false)
 			}
@@ -417,7 +428,40 @@ func Generate(rt *rapid.T, o GenOpts) *Schema {
 			g.genFunction()
 		}
 	}
+	if o.MaskForward && o.Functions && g.p("maskforward", 60) {
+		g.addMaskForward()
+	}
 	return g.s
+}
+
+// addMaskForward appends a template with a type and a mask parameter, a holder that instantiates it for several
+// element types under one mask parameter, and a function whose # argument is forwarded to the holder it returns.
+func (g *gen) addMaskForward() {
+	boxC, boxT := g.freshName("mbox")
+	holdC, holdT := g.freshName("mhold")
+	fn, _ := g.freshName("getBoxes")
+	tp := TypeExpr{Kind: "tparam", Name: "T"}
+	box := &Comb{Name: boxC, ResultType: boxT, Params: []Param{{Name: "T"}, {Name: "m", IsNat: true}}, ResultArgs: []string{"T", "m"}}
+	box.Fields = []Field{{Name: "id", Type: TypeExpr{Kind: "ref", Name: "int"}},
+		{Name: "value", Mask: &MaskRef{Src: "m", Bit: g.n("fwdbit", 0, 3)}, Type: tp},
+		{Name: "extra", Mask: &MaskRef{Src: "m", Bit: 4 + g.n("fwdbit2", 0, 3)}, Type: TypeExpr{Kind: "ref", Name: "string"}}}
+	hold := &Comb{Name: holdC, ResultType: holdT, Params: []Param{{Name: "m", IsNat: true}}, ResultArgs: []string{"m"}}
+	elems := []string{"int", "long", "string", "double", "float"}
+	k := g.n("fwdinst", 2, 4)
+	off := g.n("fwdoff", 0, len(elems)-1)
+	for i := 0; i < k; i++ {
+		el := TypeExpr{Kind: "ref", Name: elems[(off+i)%len(elems)]}
+		t := TypeExpr{Kind: "ref", Name: boxC, Args: []Arg{{Type: &el}, {Nat: &NatExpr{Kind: "field", Name: "m"}}}}
+		if g.p("fwdvec", 25) {
+			inner := t
+			t = TypeExpr{Kind: "ref", Name: "vector", Args: []Arg{{Type: &inner}}}
+		}
+		hold.Fields = append(hold.Fields, Field{Name: fmt.Sprintf("b%d", i), Type: t})
+	}
+	res := TypeExpr{Kind: "ref", Name: holdT, Args: []Arg{{Nat: &NatExpr{Kind: "field", Name: "fields_mask"}}}}
+	f := &Comb{Name: fn, IsFunc: true, Ann: []string{"read"}, FuncResult: &res,
+		Fields: []Field{{Name: "fields_mask", Type: TypeExpr{Kind: "prim", Name: "#"}}}}
+	g.s.Combs = append(g.s.Combs, box, hold, f)
 }
 
 // addRecursion appends a well-founded recursive field (through Maybe / vector / a masked field) to some struct.
